@@ -456,6 +456,64 @@ func runC19(res *Result, tier string, seed int64, replay string) {
 	}
 	_ = mjml.Render
 	c19TagCorrespondence(res, drv, tier, seed)
+	c19ScanCorrespondence(res, drv, tier, seed)
+}
+
+// c19ScanCorrespondence: the scanner over whole fragments — the real applyInlineStylesToHTML (verif export) against the Lean
+// model `InlineScan.scan` (driver `inlscan`), byte for byte: text, comments with quotes and angle brackets, end tags, doctype /
+// processing instructions, unterminated pieces, start tags of every spelling.
+func c19ScanCorrespondence(res *Result, drv *DriverPool, tier string, seed int64) {
+	styles := map[string][]options.InlineStyle{
+		"ka": {{Property: "color", Value: "#111111"}, {Property: "font-weight", Value: "bold"}},
+		"kb": {{Property: "text-decoration", Value: "underline"}},
+	}
+	table := hex.EncodeToString([]byte("ka")) + ":" + hex.EncodeToString([]byte("color:#111111;font-weight:bold;")) + " " +
+		hex.EncodeToString([]byte("kb")) + ":" + hex.EncodeToString([]byte("text-decoration:underline;"))
+	pieces := []string{"text ", "a &amp; b", "<p class=\"ka\">", "</p>", "<br class=kb>", "<img src=i.png class='ka'/>", "<!-- don't -->", "<!-- a > b -->", "<!--", "-->", "<!doctype html>",
+		"<?php x ?>", "<a href=http://x/a class=ka>", "</a >", "<", ">", "<b", " class=\"kb\"", "\n", "<td style='x:y' class=\"ka kb\">", "<![CDATA[ <p class=\"ka\"> ]]>", "<p title=\"a > b\" class=ka>", "'", "\"",
+		"<span class=\"zz\">", "<!--[if mso]><p class=\"ka\">o</p><![endif]-->", "<script>if (a < b) { x = '<p class=\"ka\">' }</script>", "<style>.ka > b { }</style>"}
+	frags := []string{"", "plain text", "<p class=\"ka\">one</p>", "<!-- don't --><p class=\"ka\">after</p>", "a < b <p class=ka>", "<p class=\"ka\"", "<!-- unterminated <p class=\"ka\">",
+		"</p><p class=\"kb\">x</p><!---->", "<a b='>' class=ka>", "<a b=\"'\" class=ka>x</a><i class=kb>"}
+	n := 800
+	if tier == "thorough" {
+		n = 20000
+	}
+	for i := 0; i < n; i++ {
+		r := NewRng(seed, fmt.Sprintf("c19/frag/%d", i))
+		var b strings.Builder
+		for j, m := 0, 1+r.Intn(9); j < m; j++ {
+			b.WriteString(r.Pick(pieces))
+		}
+		frags = append(frags, b.String())
+	}
+	parallel(8, len(frags), func(i int) {
+		f := frags[i]
+		var real string
+		if p := safely(func() { real = components.VerifApplyInlineStylesToHTML(f, styles) }); p != nil {
+			res.Violate(Violation{Sig: "panic|inline-scan", Kind: "input", What: fmt.Sprint("applyInlineStylesToHTML panicked: ", p), Input: map[string]string{"fragment": f}})
+			return
+		}
+		line, err := drv.Ask("inlscan " + hex.EncodeToString([]byte(f)) + " " + table)
+		res.mu.Lock()
+		res.Programs++
+		res.DisagreementsChecked++
+		res.mu.Unlock()
+		parts := strings.Fields(line)
+		if err != nil || len(parts) == 0 {
+			res.Disagree(Violation{Sig: "driver-failed|inlscan", Kind: "input", What: fmt.Sprint(err, " ", short(line, 80)), Input: map[string]string{"fragment": f}})
+			return
+		}
+		model := ""
+		if len(parts) == 2 {
+			model = parts[0]
+		}
+		res.Case("frag|"+f, real != f)
+		res.Count("fragment-start-tags=" + parts[len(parts)-1])
+		if hex.EncodeToString([]byte(real)) != model {
+			mb, _ := hex.DecodeString(model)
+			res.Disagree(Violation{Sig: "inline-scan-model-mismatch", Kind: "input", What: fmt.Sprintf("applyInlineStylesToHTML(%q) = %q, the Lean model says %q", f, real, string(mb)), Input: map[string]string{"fragment": f}})
+		}
+	})
 }
 
 // c19TagCorrespondence: the scanner's per-tag step (parse the start tag, add the declarations, write it back) — the real
